@@ -68,9 +68,9 @@ pub fn c20(opts: &Opts, out: &mut Out) {
         out.oracle("C20:oracle-self-test", hits.len() == 1 && hits[0].kind == 9 && hits[0].block == 32, "control", &format!("allocator scan saw {} hits for one leaked and one wiped control block", hits.len()));
     }
     let configs: Vec<(usize, usize, usize, bool)> = if opts.thorough {
-        vec![(8, 1, 1, true), (8, 1, 6, true), (64, 1, 2, true), (8, 1, 1, false), (64, 2, 3, false), (16, 4, 2, false), (2, 1, 4, true), (32, 1, 1, true), (64, 1, 6, false)]
+        vec![(8, 1, 1, true), (8, 1, 6, true), (64, 1, 2, true), (8, 1, 1, false), (64, 2, 3, false), (16, 4, 2, false), (2, 1, 4, true), (32, 1, 1, true), (64, 1, 6, false), (1, 128, 4, false), (1, 512, 1, false), (1, 256, 6, false)]
     } else {
-        vec![(8, 1, 1, true), (8, 1, 6, true), (64, 1, 2, true), (8, 1, 2, false), (64, 2, 3, false)]
+        vec![(8, 1, 1, true), (8, 1, 6, true), (64, 1, 2, true), (8, 1, 2, false), (64, 2, 3, false), (1, 128, 4, false)]
     };
     for (n, m, t, seeded) in configs {
         let mut inst = rrun::random_inst(n, m, m, t, 4, seeded, &mut rng);
